@@ -40,7 +40,7 @@ RULE = ('Hypothesis: CamxSpec restricted to the formats that have both '
         'roll-over inside the file.  Distinct by sha1 of the case spec.' + '  Domain by construction: lateral_boundary nx, ny >= 2 (an edge needs its two corner cells), EMISSIONS nz = 1, AIRQUALITY one step, steps of whole hours (lateral_boundary 1 h), every instant incl. the last end time inside 1970-2069, species names not DATE/TFLAG/ETFLAG, a 3-variable cloud_rain file whose size is also a whole number of 5-variable steps is not generated (the format stores no variable count), old-style landuse with at most one optional field.' + '  Single-layer EMISSIONS files are also encoded with nz = 0 in the grid header; both readers must present LAY = 1.  Payload modes include whole files / 2-D fields of +-0 mixtures.')
 ASSUMPTIONS = ['a file accepted by vf.ref.camx_ref.decode is a valid CAMx '
                'file', 'two-digit years denote 1970-2069']
-BUDGET = {'quick': dict(examples=2400, max_s=200),
+BUDGET = {'quick': dict(examples=4000, max_s=200),
           'thorough': dict(examples=50000, max_s=2400)}
 
 
